@@ -869,6 +869,21 @@ def make_builtins(I):
             its = v.concrete_items(I)
             if its is not None:
                 return len(its)
+        if isinstance(v, V.SetVal):
+            # number of distinct values of a list of known length (forks on equalities between symbolic values)
+            its = I.try_iter_concrete(v.src)
+            if its is not None:
+                kept = []
+                for x in its:
+                    dup = False
+                    for y in kept:
+                        r = equals(I, x, y)
+                        if r is True or (r is not False and I.ctx.decide(to_z3(r), "set: equal elements")):
+                            dup = True
+                            break
+                    if not dup:
+                        kept.append(x)
+                return len(kept)
         raise Unsupported("len of %r" % (v,))
     reg("len", b_len)
 
